@@ -19,6 +19,33 @@ the same operations in the same order with the C++ integer semantics made explic
                                  must show the fuel suffices)
   if / else / early return / ?: / ++x / --x / op= / MOMO_ASSERT (dropped, listed as a comment)
   reference outputs and fields written by the function become components of the result tuple.
+  (area Pool)
+  uintptr_t                   -> like size_t (u64)
+  Byte* p                     -> a 64-bit address (u64): p + n / p - n is address arithmetic mod 2^64 (flat memory; leaving the
+                                 allocation is UB and is excluded by the in-range hypotheses of the equivalence theorems)
+  ptrdiff_t (i64)             -> Lean `Int`; + - * unary- & are Tr.addI64 / subI64 / mulI64 / negI64 / andI64: the exact result reduced
+                                 to two's complement 64 bit. Signed overflow is UB in C++: the equivalence theorems carry the
+                                 hypotheses under which no reduction happens (the wrap is never relied upon)
+  int8_t (i8)                 -> Lean `Int`; promoted to `int` (i32) by unary minus / comparisons: exact (|value| <= 128, cannot overflow);
+                                 no other arithmetic on i8 / promoted int is accepted
+  u64 <op> i64                -> usual arithmetic conversions: the signed operand is converted to u64 (Tr.ofI64: value mod 2^64)
+  static_cast<ptrdiff_t>(u64) -> Tr.toI64 (two's complement reading); static_cast<size_t>(signed) -> Tr.ofI64;
+  static_cast<int8_t>(i64)    -> Tr.wI8 (reduction to [-128,128)); ptrdiff_t{b} for bool b -> 0 / 1
+  ~x on u64                   -> Tr.not64 x (2^64 - 1 - x);  -x on u64 -> Seg.sub64 0 x
+  std::minmax(a, b).first/.second -> `(b < a) ? b : a` / `(b < a) ? a : b` (the definition in <algorithm>), both of one type
+  sizeof(T)                   -> the entry "sizeof(T)" of the spec's `consts`
+  const T x = e; / T{e}       -> declaration / conversion to T
+  `T r = f(a, out);`          -> spec key `outcalls`: `let (r, out) := f a` for a translated f with reference outputs
+  spec keys `cut` ([(regex, replacement)], each must match exactly once) and `stop_before` (regex, must match; the body is
+  translated up to that point and the `outs` are returned) remove the parts of a body that touch memory / the memory
+  manager; the translation fails (function reported `missing`) when a marker is not found.
+  (area HashMeta)
+  uint8_t a[n] (type "u8[]")  -> Lean function `Nat → Nat`: `a[e]` is `(a e)`, `a[e] = v;` is `let a := Tr.upd a e v` (no bounds: an
+                                 out-of-range index is UB in C++ and excluded by the hypotheses of the equivalence theorems)
+  uint8_t& r = a[e];          -> the index is evaluated once (`let r_idx := e`); later `r` reads / writes `a[r_idx]`
+  int - int (e.g. `--b` on a uint8_t b) -> exact in Lean `Int` (operands are non-negative); the only accepted use of the result is
+                                 the conversion back to uintN_t: `Int.toNat (x % 2^N)` (value mod 2^N, as in C++)
+  static const T x = e;       -> local constant: like `T x = e;`
 
 Anything outside the subset makes the translation of that function fail; the failure is reported as
 `missing` (the obligation cannot be re-checked), exactly like a constant whose pattern is gone.
@@ -31,8 +58,8 @@ import re, os, sys
 
 TOK = re.compile(r"""
     (?P<num>0[xX][0-9a-fA-F]+|\d+)(?:ull|ULL|ul|UL|u|U)?
-  | (?P<id>[A-Za-z_][A-Za-z_0-9]*(?:<>)?(?:::[A-Za-z_][A-Za-z_0-9]*(?:<>)?)*)
-  | (?P<op><<=|>>=|\+\+|--|<<|>>|<=|>=|==|!=|&&|\|\||\+=|-=|\*=|/=|%=|&=|\|=|\^=|[-+*/%&|^~!<>=?:;,(){}\[\]])
+  | (?P<id>[A-Za-z_][A-Za-z_0-9]*(?:<>|<[A-Za-z_][A-Za-z_0-9]*>(?=::))?(?:::[A-Za-z_][A-Za-z_0-9]*(?:<>|<[A-Za-z_][A-Za-z_0-9]*>(?=::))?)*)
+  | (?P<op><<=|>>=|\+\+|--|<<|>>|<=|>=|==|!=|&&|\|\||\+=|-=|\*=|/=|%=|&=|\|=|\^=|[-+*/%&|^~!<>=?:;,(){}\[\].])
   | (?P<ws>\s+)
 """, re.X)
 
@@ -57,8 +84,11 @@ def tokenize(src):
 
 
 TYPES = {"size_t": "u64", "uint64_t": "u64", "uint8_t": "u8", "uint16_t": "u16", "uint32_t": "u32", "bool": "bool", "int": "int",
-         "UInt": "u64", "HashCode": "u64"}
+         "UInt": "u64", "HashCode": "u64", "uintptr_t": "u64", "ptrdiff_t": "i64", "int8_t": "i8"}
 BITS = {"u8": 8, "u16": 16, "u32": 32, "u64": 64}
+SIGNED = ("i8", "i32", "i64")          # Lean `Int`; i32 = an int8_t promoted to `int`
+BITS_S = {"i8": 8, "i32": 32, "i64": 64}
+PTR_TYPES = ("Byte",)                  # `Byte* p`: a 64-bit address, type u64
 
 # ---------------------------------------------------------------- parser -> AST (tuples)
 
@@ -116,6 +146,20 @@ class P:
         if k == "op" and v == "!":
             self.next()
             return ("not", self.unary())
+        if k == "op" and v in ("~", "-"):                        # ~x, unary minus
+            self.next()
+            return ("bitnot" if v == "~" else "neg", self.unary())
+        if k == "id" and v == "sizeof" and self.peek(1) == ("op", "("):   # sizeof(T): looked up as "sizeof(T)" in the spec's consts
+            self.next()
+            self.next()
+            txt = ""
+            while self.peek() != ("op", ")"):
+                kk, vv = self.next()
+                if kk == "eof" or vv in ("(", ";"):
+                    raise SyntaxError("sizeof of something that is not a plain type")
+                txt += str(vv)
+            self.next()
+            return ("sizeof", "sizeof(%s)" % txt)
         if k == "op" and v == "(":
             self.next()
             e = self.expr(0)
@@ -155,7 +199,10 @@ class P:
         raise SyntaxError("unexpected token %s %r" % (k, v))
 
     def postfix(self, e):
-        while self.peek() == ("op", "["):
+        while self.peek() == ("op", "[") or (self.peek() == ("op", ".") and self.peek(1)[0] == "id"):
+            if self.accept("op", "."):                           # member access (only `std::minmax(a, b).first/.second` is translated)
+                e = ("member", e, self.expect("id"))
+                continue
             self.next()
             idx = self.expr(0)
             self.expect("op", "]")
@@ -183,6 +230,13 @@ class P:
             self.next()
             if self.accept("op", ";"):
                 return ("return", None)
+            if self.accept("op", "{"):                           # `return { a, b };` (a std::pair / struct result; area Misc)
+                items = [self.expr(0)]
+                while self.accept("op", ","):
+                    items.append(self.expr(0))
+                self.expect("op", "}")
+                self.expect("op", ";")
+                return ("return", ("bracelist", items))
             e = self.expr(0)
             self.expect("op", ";")
             return ("return", e)
@@ -203,13 +257,52 @@ class P:
             c = self.expr(0)
             self.expect("op", ")")
             return ("while", c, self.stmt_or_block())
-        if k == "id" and v == "MOMO_ASSERT":
+        if k == "id" and v in ("MOMO_ASSERT", "MOMO_STATIC_ASSERT"):   # (MOMO_STATIC_ASSERT: area Misc)
             self.next()
             self.expect("op", "(")
             e = self.expr(0)
             self.expect("op", ")")
             self.expect("op", ";")
             return ("assert", e)
+        if k == "id" and v == "static" and self.peek(1)[0] == "id" and (self.peek(1)[1] == "const" or self.peek(1)[1] in TYPES):
+            self.next()                                          # `static const T x = e;` (local constant) is `T x = e;`
+            k, v = self.peek()
+        if k == "id" and v in TYPES and self.peek(1) == ("op", "&") and self.peek(2)[0] == "id" and self.peek(3) == ("op", "="):
+            self.next()                                          # `T& r = a[i];`: alias of an array element (area HashMeta)
+            self.next()
+            name = self.expect("id")
+            self.next()
+            lv = self.unary()
+            self.expect("op", ";")
+            return ("refdecl", TYPES[v], name, lv)
+        if k == "id" and v == "const" and self.peek(1)[0] == "id" and (self.peek(1)[1] in TYPES or self.peek(1)[1] in PTR_TYPES):
+            self.next()                                          # `const T x = e;` is `T x = e;`
+            k, v = self.peek()
+        if k == "id" and v in PTR_TYPES and self.peek(1) == ("op", "*") and self.peek(2)[0] == "id" and self.peek(3)[1] in ("=", ";"):
+            self.next()                                          # `Byte* p = e;` / `Byte* p;`: an address (u64)
+            self.next()
+            name = self.expect("id")
+            init = None
+            if self.accept("op", "="):
+                init = self.expr(0)
+            self.expect("op", ";")
+            return ("decl", "u64", name, init)
+        if k == "id" and v in TYPES and self.peek(1)[0] == "id" and self.peek(2) == ("op", "[") and self.peek(3)[0] == "num" \
+                and self.peek(4) == ("op", "]") and self.peek(5) == ("op", "=") and self.peek(6) == ("op", "{"):
+            self.next()                                          # `[static const] T tab[N] = { n, n, ... };` (constant table; area Misc)
+            name = self.expect("id")
+            self.next()
+            size = self.expect("num")
+            for _ in range(3):
+                self.next()
+            vals = []
+            while not self.accept("op", "}"):
+                vals.append(self.expect("num"))
+                if not self.accept("op", ","):
+                    self.expect("op", "}")
+                    break
+            self.expect("op", ";")
+            return ("decltab", TYPES[v], name, size, vals)
         if k == "id" and v in TYPES and self.peek(1)[0] == "id":   # declaration
             self.next()
             name = self.expect("id")
@@ -254,6 +347,7 @@ class Tr:
         self.types.update(dict(spec.get("outs", [])))
         self.consts = spec.get("consts", {})
         self.asserts = []
+        self.refs = {}                                           # `T& r = a[i];`: r -> (a, name of the let-bound index, element type)
         self.outs = [n for n, _ in spec.get("outs", [])] + [n for n, _ in spec.get("fields", []) if n in spec.get("writes", [])]
 
     # --- lvalues: plain variable, `mState[0]` (field array with literal index), accessor call `pvGetMaxProbeExp()`
@@ -269,6 +363,24 @@ class Tr:
     def rename(self, n):
         return self.spec.get("rename", {}).get(n, n)
 
+    # --- byte arrays (area HashMeta): a field / parameter of type "u8[]" is a Lean function `Nat → Nat`; `a[e]` reads `(a e)`,
+    # `a[e] = v` is `let a := Tr.upd a e v`; `T& r = a[e];` binds the index once, later uses of `r` read / write that element
+    def arr_lv(self, lv):
+        """(array name, index AST | name of the bound index, element type) if `lv` is an element of an array-typed name, else None"""
+        if lv[0] == "var" and lv[1] in self.refs:
+            return self.refs[lv[1]]
+        if lv[0] == "index" and lv[1][0] == "var":
+            n = self.rename(lv[1][1])
+            if self.types.get(n, "").endswith("[]"):
+                return n, lv[2], self.types[n][:-2]
+        return None
+
+    def arr_index(self, idx):
+        if isinstance(idx, str):
+            return idx
+        t, ty = self.ex(idx)
+        return self.conv(t, ty, "u64")
+
     # --- expressions: returns (lean text, type)
     def ex(self, e):
         k = e[0]
@@ -276,6 +388,9 @@ class Tr:
             return str(e[1]), "int"
         if k == "boollit":
             return ("true" if e[1] else "false"), "bool"
+        if k in ("var", "index") and self.arr_lv(e) is not None:  # element of a byte array
+            arr, idx, elty = self.arr_lv(e)
+            return "(%s %s)" % (arr, self.arr_index(idx)), elty
         if k == "var" or k == "index" or (k == "call" and e[1] in self.spec.get("accessors", {}) and not e[2]):
             if k == "var" and e[1] in self.consts:
                 txt, ty = self.consts[e[1]]
@@ -296,6 +411,33 @@ class Tr:
             b, bty = self.ex(e[3])
             ty = self.common(aty, bty)
             return "(if %s then %s else %s)" % (self.as_bool(c, cty), self.conv(a, aty, ty), self.conv(b, bty, ty)), ty
+        if k == "sizeof":
+            if e[1] not in self.consts:
+                raise Unsupported("%s (no such entry in consts)" % e[1])
+            return self.consts[e[1]]
+        if k == "bitnot":
+            t, ty = self.ex(e[1])
+            if ty != "u64":
+                raise Unsupported("~ on %s" % ty)
+            return "(Tr.not64 %s)" % t, "u64"
+        if k == "neg":
+            t, ty = self.ex(e[1])
+            if ty == "i64":
+                return "(Tr.negI64 %s)" % t, "i64"
+            if ty in ("i8", "i32"):
+                return "(-%s)" % t, "i32"                      # int8_t promoted to int: exact, cannot overflow
+            if ty == "u64":
+                return "(Seg.sub64 0 %s)" % t, "u64"
+            raise Unsupported("unary minus on %s" % ty)
+        if k == "member":
+            if not (e[1][0] == "call" and e[1][1] == "std::minmax" and len(e[1][2]) == 2 and e[2] in ("first", "second")):
+                raise Unsupported("member access .%s" % e[2])
+            a, aty = self.ex(e[1][2][0])
+            b, bty = self.ex(e[1][2][1])
+            if aty != bty or aty == "bool":
+                raise Unsupported("std::minmax of %s and %s" % (aty, bty))
+            # minmax(a, b) = (b < a) ? pair(b, a) : pair(a, b)
+            return ("(if (decide (%s < %s)) then %s else %s)" % ((b, a, b, a) if e[2] == "first" else (b, a, a, b))), aty
         if k == "call":
             calls = self.spec.get("calls", {})
             if e[1] not in calls:
@@ -314,6 +456,20 @@ class Tr:
             b, bty = self.ex(e[3])
             if op in ("&&", "||"):
                 return "(%s %s %s)" % (self.as_bool(a, aty), op, self.as_bool(b, bty)), "bool"
+            if "sint" in (aty, bty):
+                raise Unsupported("operator %s on the result of an int subtraction" % op)
+            if aty in SIGNED or bty in SIGNED:
+                if "u64" in (aty, bty):                           # the signed operand is converted to the unsigned type
+                    a, b, aty, bty = self.conv(a, aty, "u64"), self.conv(b, bty, "u64"), "u64", "u64"
+                else:
+                    ty = "i64" if "i64" in (aty, bty) else "i32"
+                    a, b = self.conv(a, aty, ty), self.conv(b, bty, ty)
+                    if op in ("==", "!=", "<", "<=", ">", ">="):
+                        lop = {"==": "=", "!=": "≠", "<": "<", "<=": "≤", ">": ">", ">=": "≥"}[op]
+                        return "(decide (%s %s %s))" % (a, lop, b), "bool"
+                    if ty != "i64" or op not in ("+", "-", "*", "&"):
+                        raise Unsupported("operator %s on %s operands" % (op, ty))
+                    return "(%s %s %s)" % ({"+": "Tr.addI64", "-": "Tr.subI64", "*": "Tr.mulI64", "&": "Tr.andI64"}[op], a, b), "i64"
             if op in ("==", "!=", "<", "<=", ">", ">="):
                 if aty == "bool" and bty == "bool" and op in ("==", "!="):
                     return "(%s %s %s)" % (a, op, b), "bool"
@@ -328,6 +484,8 @@ class Tr:
                 f = {"+": "Seg.add64 %s %s", "-": "Seg.sub64 %s %s", "*": "Seg.mul64 %s %s", "<<": "Seg.shl64 %s %s",
                      ">>": "%s >>> %s", "&": "%s &&& %s", "|": "%s ||| %s", "^": "%s ^^^ %s", "/": "%s / %s", "%": "%s %% %s"}[op]
             else:
+                if op == "-":                                     # int - int (operands >= 0): exact in Int; only a conversion to uN may follow
+                    return "((%s : Int) - (%s : Int))" % (a, b), "sint"
                 if op not in ("+", "*", "<<", ">>", "&", "|", "^", "/", "%"):
                     raise Unsupported("operator %s on int operands" % op)
                 f = {"+": "%s + %s", "*": "%s * %s", "<<": "%s <<< %s", ">>": "%s >>> %s", "&": "%s &&& %s", "|": "%s ||| %s",
@@ -346,14 +504,42 @@ class Tr:
             return a
         if "u64" in (a, b):
             return "u64"
+        if a in SIGNED or b in SIGNED:
+            return "i64" if "i64" in (a, b) else "i32"
         return "int"
 
     def conv(self, t, src, dst):
         """value conversion src type -> dst type"""
+        if src == "sint":                                         # possibly negative int -> uN: reduction mod 2^N (Int.emod is >= 0)
+            if dst in BITS:
+                return "(Int.toNat (%s %% %d))" % (t, 2 ** BITS[dst])
+            raise Unsupported("conversion of the result of an int subtraction to %s" % dst)
         if src == dst:
             return t
         if dst == "bool":
             return self.as_bool(t, src)
+        if src in SIGNED or dst in SIGNED:
+            if src == "bool":
+                return "((if %s then 1 else 0) : Int)" % t
+            if src in SIGNED and dst in SIGNED:
+                if BITS_S[src] <= BITS_S[dst]:
+                    return t                                      # widening: exact
+                if dst == "i8":
+                    return "(Tr.wI8 %s)" % t
+                raise Unsupported("conversion %s -> %s" % (src, dst))
+            if src in SIGNED:
+                if dst == "u64":
+                    return "(Tr.ofI64 %s)" % t                    # value mod 2^64
+                raise Unsupported("conversion %s -> %s" % (src, dst))
+            if re.fullmatch(r"\d+", t) and int(t) < 2 ** (BITS_S[dst] - 1):
+                return "(%s : Int)" % t
+            if dst == "i64" and src == "u64":
+                return "(Tr.toI64 %s)" % t                        # two's complement reading
+            if dst == "i8":
+                return "(Tr.wI8 (Int.ofNat %s))" % t
+            if dst in ("i32", "i64") and src in BITS and BITS[src] < BITS_S[dst]:
+                return "(Int.ofNat %s)" % t
+            raise Unsupported("conversion %s -> %s" % (src, dst))
         t = self.as_num(t, src)
         if src == "bool":
             return t
@@ -373,7 +559,12 @@ class Tr:
     def assigned(self, stmts):
         out = []
         for s in stmts:
-            if s[0] == "assign":
+            if s[0] == "refdecl":
+                self.bind_ref(s)
+            elif s[0] == "assign" and self.arr_lv(s[1]) is not None:
+                if self.arr_lv(s[1])[0] not in out:
+                    out.append(self.arr_lv(s[1])[0])
+            elif s[0] == "assign":
                 n = self.lv_name(s[1])
                 if n not in out:
                     out.append(n)
@@ -394,6 +585,13 @@ class Tr:
                     if n not in out:
                         out.append(n)
         return out
+
+    def bind_ref(self, s):
+        al = self.arr_lv(s[3])
+        if al is None or isinstance(al[1], str) or al[2] != s[1]:
+            raise Unsupported("reference %s to something that is not an element of a byte array" % s[2])
+        self.refs[s[2]] = (al[0], s[2] + "_idx", al[2])
+        return al[1]
 
     def always_returns(self, stmts):
         for s in stmts:
@@ -441,8 +639,35 @@ class Tr:
             self.types[s[2]] = s[1]
             if s[3] is None:
                 return "let %s := 0\n%s%s" % (s[2], pad, self.seq(rest, ind, tail))   # uninitialised: never read before assignment in accepted code
+            oc = self.spec.get("outcalls", {})
+            if s[3][0] == "call" and s[3][1] in oc:              # `T r = f(a, out);` with reference outputs
+                lean, extra, argtys, outtys, rty = oc[s[3][1]]
+                ins, outs = s[3][2][:len(argtys)], s[3][2][len(argtys):]
+                if len(ins) != len(argtys) or len(outs) != len(outtys) or rty != s[1]:
+                    raise Unsupported("arity / result type of %s" % s[3][1])
+                args = []
+                for a, want in zip(ins, argtys):
+                    t, ty = self.ex(a)
+                    args.append(self.conv(t, ty, want))
+                names = []
+                for o, oty in zip(outs, outtys):
+                    if o[0] != "var" or self.types.get(self.rename(o[1])) != oty:
+                        raise Unsupported("reference argument of %s" % s[3][1])
+                    names.append(self.rename(o[1]))
+                return "let %s := %s %s\n%s%s" % (self.tuple_of([s[2]] + names), lean, " ".join(extra + args), pad, self.seq(rest, ind, tail))
             t, ty = self.ex(s[3])
+            if s[1] in SIGNED:
+                return "let %s : Int := %s\n%s%s" % (s[2], self.conv(t, ty, s[1]), pad, self.seq(rest, ind, tail))
             return "let %s := %s\n%s%s" % (s[2], self.conv(t, ty, s[1]), pad, self.seq(rest, ind, tail))
+        if k == "refdecl":
+            idx = self.bind_ref(s)
+            t, ty = self.ex(idx)
+            return "let %s_idx := %s\n%s%s" % (s[2], self.conv(t, ty, "u64"), pad, self.seq(rest, ind, tail))
+        if k == "assign" and self.arr_lv(s[1]) is not None:
+            arr, idx, elty = self.arr_lv(s[1])
+            it = self.arr_index(idx)
+            t, ty = self.ex(s[2])
+            return "let %s := Tr.upd %s %s %s\n%s%s" % (arr, arr, it, self.conv(t, ty, elty), pad, self.seq(rest, ind, tail))
         if k == "assign":
             n = self.lv_name(s[1])
             if n not in self.types:
@@ -507,9 +732,10 @@ class Tr:
     def lean_def(self, body_stmts):
         params = self.spec.get("fields", []) + self.spec.get("params", [])
         txt = self.seq(body_stmts, 1, lambda: self.result(None) if not self.spec.get("ret") else (_ for _ in ()).throw(Unsupported("missing return")))
-        sig = "def %s %s: %s :=\n  " % (self.spec["lean"], "".join("(%s : %s) " % (n, "Bool" if t == "bool" else "Nat") for n, t in params), self.spec["lean_type"])
-        doc = "/-- translated from `%s` (%s)%s -/\n" % (self.spec["cxx"], self.spec["header"],
-                                                       ("; dropped assertions: " + "; ".join(self.asserts)) if self.asserts else "")
+        sig = "def %s %s: %s :=\n  " % (self.spec["lean"], "".join("(%s : %s) " % (n, "Bool" if t == "bool" else "Nat → Nat" if t.endswith("[]") else ("Int" if t in SIGNED else "Nat")) for n, t in params), self.spec["lean_type"])
+        doc = "/-- translated from `%s` (%s)%s%s -/\n" % (self.spec["cxx"], self.spec["header"],
+                                                         ("; " + self.spec["note"]) if self.spec.get("note") else "",
+                                                         ("; dropped assertions: " + "; ".join(self.asserts)) if self.asserts else "")
         return doc + sig + txt + "\n"
 
 
@@ -630,6 +856,15 @@ def translate_one(spec, text):
         raise Unsupported("function not found (anchor %r)" % spec["anchor"])
     for pat, repl in spec.get("pre", []):
         body = re.sub(pat, repl, body)
+    for pat, repl in spec.get("cut", []):                        # checked rewrite: the marker must be there exactly once
+        body, n = re.subn(pat, repl, body)
+        if n != 1:
+            raise Unsupported("marker %r found %d times" % (pat, n))
+    if spec.get("stop_before"):                                  # translate the body up to a marker that must be there
+        m = re.search(spec["stop_before"], body)
+        if not m:
+            raise Unsupported("marker %r not found" % spec["stop_before"])
+        body = body[:m.start()] + "}"
     p = P(tokenize(body))
     stmts = p.block()
     if p.peek()[0] != "eof":
